@@ -663,6 +663,43 @@ pub(crate) fn unify_types(t1: TypeNodeId, t2: TypeNodeId) -> Result<Relation, Ve
     Ok(res)
 }
 
+/// Entry points for the verification harness (`--cfg mimium_verif` only): the crate-private
+/// unification functions, with the error list reduced to the kinds of its entries.
+#[cfg(mimium_verif)]
+pub mod verif {
+    use super::{Error, Relation, TypeNodeId};
+
+    pub type Verdict = Result<&'static str, Vec<&'static str>>;
+
+    fn verdict(res: Result<Relation, Vec<Error>>) -> Verdict {
+        res.map(|rel| match rel {
+            Relation::Subtype => "Subtype",
+            Relation::Identical => "Identical",
+            Relation::Supertype => "Supertype",
+        })
+        .map_err(|errs| {
+            errs.iter()
+                .map(|e| match e {
+                    Error::TypeMismatch { .. } => "TypeMismatch",
+                    Error::LengthMismatch { .. } => "LengthMismatch",
+                    Error::CircularType { .. } => "CircularType",
+                    Error::ImcompatibleRecords { .. } => "ImcompatibleRecords",
+                })
+                .collect()
+        })
+    }
+
+    /// `unify_types(t1, t2)`
+    pub fn unify(t1: TypeNodeId, t2: TypeNodeId) -> Verdict {
+        verdict(super::unify_types(t1, t2))
+    }
+
+    /// `unify_types_args(t1, t2)`
+    pub fn unify_args(t1: TypeNodeId, t2: TypeNodeId) -> Verdict {
+        verdict(super::unify_types_args(t1, t2))
+    }
+}
+
 #[cfg(test)]
 mod tests {
     use std::path::PathBuf;
